@@ -54,7 +54,15 @@ THEOREMS = ["Claripy.Props.C12.C12_mro_child", "Claripy.Props.C12.C12_mro_compos
             "Claripy.Solver.compEvalX_step", "Claripy.Solver.compBatchEvalX_step", "Claripy.Solver.compSolutionX_step",
             "Claripy.Solver.compMaxX_step", "Claripy.Solver.compMinX_step", "Claripy.Solver.comp_stepE", "Claripy.Solver.comp_histE",
             "Claripy.Solver.comp_histE_inv", "Claripy.Solver.InScopeCX.toCE",
-            # branch() of the composite: copy-on-write children, the frame rule, trees of composites (given the footprint CompFrames)
+            # branch() of the composite: copy-on-write children, the frame rule, trees of composites (tree_step / tree_hist take the footprint CompFrames as a hypothesis; it is discharged in round 9)
+            # round 9: the footprint of the calls (invariant-free calculus) => CompFrames => whole trees of branched composites
+            "Claripy.Props.C12.C12_composite_tree_history", "Claripy.Props.C12.C12_composite_tree_step",
+            "Claripy.Props.C12.C12_comp_frames", "Claripy.Props.C12.C12_step_footprint",
+            "Claripy.Props.C12.C12_child_queries_keep_constraints", "Claripy.Solver.compFrames", "Claripy.Solver.childKeeps",
+            "Claripy.Solver.stepFrame_compStep", "Claripy.Solver.opsKeeps_chStage", "Claripy.Solver.keeps_childCheckSat",
+            "Claripy.Solver.keeps_getSolver", "Claripy.Solver.sf_solverForNames", "Claripy.Solver.sf_claim", "Claripy.Solver.sf_compAdd",
+            "Claripy.Solver.sf_reabsorb", "Claripy.Solver.sf_compSatisfiable", "Claripy.Solver.sf_compQuery",
+            "Claripy.Solver.sf_storeChild", "Claripy.Solver.childCombineWith_frame", "Claripy.Solver.split_go_frame",
             "Claripy.Props.C12.C12_branch_keeps_invariant", "Claripy.Props.C12.C12_claim_copy_on_write",
             "Claripy.Props.C12.C12_invariant_frame", "Claripy.Props.C12.C12_composite_tree_step_partial",
             "Claripy.Props.C12.C12_composite_tree_history_partial", "Claripy.Props.C12.cTreeHist_ok",
